@@ -215,7 +215,7 @@ def execute(sc):
 
     ctl.spawn('L1', async_consumer if sc['which'] == 'to_async' else sync_consumer)
     ctl.start()
-    if not ctl.finished.wait(sc.get('wall', 6.0)):
+    if not rt.wait_finished(ctl, sc.get('wall', 6.0)):
         ctl.status = 'stuck'
     ctl.log('End', status=ctl.status if ctl.status in ('ok', 'hang') else 'stuck')
     return rt.result_payload(ctl)
